@@ -469,12 +469,31 @@ theorem closestPass_isStmtRow (units : Array CUnit) (path needle : Nat) (seen : 
     rw [g1] at hr; injection hr with hr
     exact ⟨un, f, h2, hf, g1, by rw [hr]; exact hrf, g3, g4⟩
 
-/-- **C04_line_to_addrs_sound.** Every place `find_closest_place(path, line)` returns is an is_stmt row of `line` in that
-file — or of `line + 1`, and then only when the pass for `line` selected nothing at all. -/
+/-- NO unit has an is_stmt row of `path:l` (the quantifier ranges over ALL units, file indices and rows) -/
+def NoStmtRowOf (units : Array CUnit) (path l : Nat) : Prop := ∀ q : Nat × Nat × Row, ¬ IsStmtRowOf units path l q
+
+/-- an is_stmt row of `path:line` in ANY unit makes the pass for `line` select something: the `line + 1` pass
+is then never run, whatever the other units contain. -/
+theorem closestPass_ne_of_stmtRow (units : Array CUnit) (path line : Nat) (q : Nat × Nat × Row)
+    (hq : IsStmtRowOf units path line q) : (closestPass units line (filesOf units path) [] []).2 ≠ [] := by
+  obtain ⟨un, f, hu, hf, hrow, hfile, hstmt, hline⟩ := hq
+  obtain ⟨t, ht⟩ := fileLines_complete un.rows f q.2.1 q.2.2 hrow hfile
+  have hne : (fileLines un.rows f).isEmpty = false := by
+    have := lt_of_getElem? ht
+    cases h : (fileLines un.rows f).isEmpty with
+    | false => rfl
+    | true => rw [Array.isEmpty_iff_size_eq_zero] at h; omega
+  have hmem := filesOf_complete units path q.1 f un hu hf hne
+  intro hnil
+  have h0 := closestPass_nil units line _ hnil q.1 _ un hmem hu
+  exact suitablePlaces_complete un.rows _ line (fileLines_valid un.rows f) t q.2.1 q.2.2 ht hrow hstmt hline h0
+
+/-- **C04_line_to_addrs_sound.** Over the WHOLE list of units: every place `find_closest_place(path, line)` returns is an
+is_stmt row of `line` in that file — or of `line + 1`, and then only when NO unit has an is_stmt row of `line`
+(the fallback is one global decision, not one per compilation unit). -/
 theorem C04_line_to_addrs_sound (units : Array CUnit) (path line : Nat) :
     ∀ p ∈ findClosestPlace units path line,
-      IsStmtRowOf units path line p ∨
-      (IsStmtRowOf units path (line + 1) p ∧ (closestPass units line (filesOf units path) [] []).2 = []) := by
+      IsStmtRowOf units path line p ∨ (IsStmtRowOf units path (line + 1) p ∧ NoStmtRowOf units path line) := by
   intro p hp
   unfold findClosestPlace at hp
   simp only [] at hp
@@ -491,7 +510,76 @@ theorem C04_line_to_addrs_sound (units : Array CUnit) (path line : Nat) :
     | nil =>
       simp only [List.isEmpty_nil, Bool.not_true, Bool.false_eq_true, if_false] at hp
       right
-      exact ⟨closestPass_isStmtRow units path (line + 1) seen p hp, rfl⟩
+      refine ⟨closestPass_isStmtRow units path (line + 1) seen p hp, ?_⟩
+      intro q hq
+      have := closestPass_ne_of_stmtRow units path line q hq
+      rw [hres] at this
+      exact this rfl
+
+/-- **C04_line_to_addrs_line_wins.** If ANY unit has an is_stmt row of `line`, the answer is non-empty and consists of
+is_stmt rows of `line` only — no unit contributes a row of `line + 1`, not even a unit that has no row of `line`. -/
+theorem C04_line_to_addrs_line_wins (units : Array CUnit) (path line : Nat) (q : Nat × Nat × Row)
+    (hq : IsStmtRowOf units path line q) :
+    findClosestPlace units path line ≠ [] ∧ ∀ p ∈ findClosestPlace units path line, IsStmtRowOf units path line p := by
+  have hne := closestPass_ne_of_stmtRow units path line q hq
+  constructor
+  · unfold findClosestPlace
+    simp only []
+    cases hres : (closestPass units line (filesOf units path) [] []) with
+    | mk seen res =>
+      rw [hres] at hne
+      cases res with
+      | nil => exact absurd rfl hne
+      | cons a rest => simp
+  · intro p hp
+    rcases C04_line_to_addrs_sound units path line p hp with h | ⟨_, h⟩
+    · exact h
+    · exact absurd hq (h q)
+
+/-- **C04_line_to_addrs_fallback.** If NO unit has an is_stmt row of `line` but some unit has one of `line + 1`, the answer
+is non-empty and consists of is_stmt rows of `line + 1` only. -/
+theorem C04_line_to_addrs_fallback (units : Array CUnit) (path line : Nat) (hno : NoStmtRowOf units path line)
+    (q : Nat × Nat × Row) (hq : IsStmtRowOf units path (line + 1) q) :
+    findClosestPlace units path line ≠ [] ∧ ∀ p ∈ findClosestPlace units path line, IsStmtRowOf units path (line + 1) p := by
+  constructor
+  · unfold findClosestPlace
+    simp only []
+    cases hres : (closestPass units line (filesOf units path) [] []) with
+    | mk seen res =>
+      cases res with
+      | cons a rest => simp
+      | nil =>
+        simp only [List.isEmpty_nil, Bool.not_true, Bool.false_eq_true, if_false]
+        have hs := closestPass_seen_of_nil units line (filesOf units path) [] (by rw [hres])
+        rw [hres] at hs; simp only [] at hs
+        subst hs
+        exact closestPass_ne_of_stmtRow units path (line + 1) q hq
+  · intro p hp
+    rcases C04_line_to_addrs_sound units path line p hp with h | ⟨h, _⟩
+    · exact absurd h (hno p)
+    · exact h
+
+/-- two units share file 7: unit 0 (an instantiation of a generic) has the row of line 7, unit 1 (the library's own
+unit) has no row of line 7 but a row of line 8 (the next function). -/
+def twoUnits : Array CUnit := #[
+  { ranges := #[⟨0x10, 0x20⟩], files := #[7],
+    rows := #[{ addr := 0x10, file := 0, line := 7, col := 1, stmt := true, pe := true, eb := false, es := false },
+              { addr := 0x20, file := 0, line := 7, col := 1, stmt := true, pe := false, eb := false, es := true }],
+    fnRanges := #[⟨0x10, 0x20, 100⟩], fns := #[{ die := 100, name := some 0, ranges := [⟨0x10, 0x20⟩] }] },
+  { ranges := #[⟨0x40, 0x50⟩], files := #[7],
+    rows := #[{ addr := 0x40, file := 0, line := 8, col := 1, stmt := true, pe := true, eb := false, es := false },
+              { addr := 0x50, file := 0, line := 9, col := 1, stmt := true, pe := false, eb := false, es := true }],
+    fnRanges := #[⟨0x40, 0x50, 200⟩], fns := #[{ die := 200, name := some 1, ranges := [⟨0x40, 0x50⟩] }] }]
+
+/-- non-vacuity of both disjuncts on a file split across two units: `break file:7` = the row of line 7 of unit 0 only
+(unit 1's row of line 8 is NOT added although unit 1 has no row of line 7); `break file:6` = nothing of line 6 anywhere,
+so the row of line 7; `break file:8` = unit 1's row. -/
+example : findClosestPlace twoUnits 7 7 = [(0, 0, twoUnits[0].rows[0])] := by decide
+example : findClosestPlace twoUnits 7 6 = [(0, 0, twoUnits[0].rows[0])] := by decide
+example : findClosestPlace twoUnits 7 8 = [(1, 0, twoUnits[1].rows[0])] := by decide
+example : IsStmtRowOf twoUnits 7 7 (0, 0, twoUnits[0].rows[0]) := ⟨twoUnits[0], 0, rfl, rfl, rfl, rfl, rfl, rfl⟩
+example : IsStmtRowOf twoUnits 7 8 (1, 0, twoUnits[1].rows[0]) ∧ ¬ NoStmtRowOf twoUnits 7 7 :=
+  ⟨⟨twoUnits[1], 0, rfl, rfl, rfl, rfl, rfl, rfl⟩, fun h => h (0, 0, twoUnits[0].rows[0]) ⟨twoUnits[0], 0, rfl, rfl, rfl, rfl, rfl, rfl⟩⟩
 
 /-- completeness at full strength: every function that has an is_stmt row of the line (in the file) gets a place. -/
 def C04_line_to_addrs_complete_full : Prop :=
@@ -521,6 +609,30 @@ theorem C04_line_to_addrs_counterexample : ¬ C04_line_to_addrs_complete_full :=
   intro h
   have hres : findClosestPlace #[cexLineUnit] 7 35 = [(0, 1, cexLineUnit.rows[1])] := by decide
   obtain ⟨p, hp, hk⟩ := h #[cexLineUnit] 7 35 0 4 cexLineUnit cexLineUnit.rows[4] 1 rfl (by decide) (by decide) (by decide) (by decide) (by decide) (by decide)
+  rw [hres] at hp
+  simp only [List.mem_singleton] at hp
+  subst hp
+  revert hk; decide
+
+/-- a second witness, found by the correspondence run on std code (`core/src/fmt/mod.rs:820` in a stock binary): two functions whose
+only row of line 35 is a prologue_end row with the SAME column and flags, adjacent in the file's row list. -/
+def cexPeUnit : CUnit := {
+  ranges := #[⟨0x10, 0x20⟩],
+  files := #[7, 7],
+  rows := #[
+    { addr := 0x10, file := 1, line := 35, col := 2, stmt := true, pe := true,  eb := false, es := false },
+    { addr := 0x18, file := 1, line := 35, col := 2, stmt := true, pe := true,  eb := false, es := false },
+    { addr := 0x20, file := 1, line := 35, col := 2, stmt := true, pe := false, eb := false, es := true }],
+  fnRanges := #[⟨0x10, 0x18, 100⟩, ⟨0x18, 0x20, 200⟩],
+  fns := #[{ die := 100, name := some 0, ranges := [⟨0x10, 0x18⟩] }, { die := 200, name := some 1, ranges := [⟨0x18, 0x20⟩] }] }
+
+/-- **C04_line_to_addrs_counterexample_pe_lookahead.** Completeness also fails without any difference in column or flags: the
+look-ahead "prefer a prologue_end sibling" starts from a row that IS a prologue_end row, jumps to the next one and never comes
+back: `break file:35` yields only 0x18 (second function); the first function, whose row is identical, gets none. -/
+theorem C04_line_to_addrs_counterexample_pe_lookahead : ¬ C04_line_to_addrs_complete_full := by
+  intro h
+  have hres : findClosestPlace #[cexPeUnit] 7 35 = [(0, 1, cexPeUnit.rows[1])] := by decide
+  obtain ⟨p, hp, hk⟩ := h #[cexPeUnit] 7 35 0 0 cexPeUnit cexPeUnit.rows[0] 1 rfl (by decide) (by decide) (by decide) (by decide) (by decide) (by decide)
   rw [hres] at hp
   simp only [List.mem_singleton] at hp
   subst hp
